@@ -118,6 +118,9 @@ def one_way_map(ctx, n):
         ctx.add('rs.uniform', b.hex(), expect=pts.expect_rs(m), cls='map:random')
         if rng.random() < 0.4:
             ctx.add('rs.fromhash_pt', b.hex(), expect=pts.expect_rs(m), cls='map:random')
+        if rng.random() < 0.2:
+            e = ref.ristretto_encode(m).hex()
+            ctx.add('misc.rs_random', b.hex(), expect=[e, e], cls='map:random')
         if rng.random() < 0.3:
             msg = vals.rb(rng, rng.choice([0, 1, 64, 100]))
             ctx.add('rs.hash', hx(msg), expect=pts.expect_rs(ref.ristretto_from_uniform(vals.sha512(msg))), cls='map:random')
